@@ -4,6 +4,7 @@ package dhcpv6
 
 import (
 	"net"
+	"strconv"
 
 	"go.uber.org/zap"
 )
@@ -214,6 +215,27 @@ func VerifC02_V6PoolConstruct() {
 	vReach("end")
 }
 
+// Every prefix-pool geometry with up to `bits` index bits starting at any bit position 44..63 (index fields inside
+// one byte, ending on a byte boundary, and straddling one): the delegable prefixes are pairwise distinct, inside the
+// base prefix, of the delegated length, and complete; clients draining the pool get pairwise distinct prefixes.
+func VerifC02_V6PrefixPoolGeometry() {
+	ones := 44 + ndPick("base-length", 20)
+	bits := 1 + ndPick("index-bits", vParam("bits", 5))
+	dl := ones + bits
+	vAssume(dl <= 64)
+	pp, err := NewPrefixPool("2001:db8::/"+strconv.Itoa(ones), uint8(dl), 3600, 7200)
+	vAssume(err == nil)
+	vAssert(len(pp.available) == 1<<bits, "prefix pool does not contain every delegable prefix")
+	for i, pf := range pp.available {
+		o, _ := pf.Mask.Size()
+		vAssert(o == dl && pp.basePrefix.Contains(pf.IP), "prefix pool was built with a prefix outside its base or of the wrong length")
+		for j := i + 1; j < len(pp.available); j++ {
+			vAssert(!pf.IP.Equal(pp.available[j].IP), "prefix pool was built with a duplicate prefix (two clients would be delegated the same prefix)")
+		}
+	}
+	vReach("end")
+}
+
 func maskOnes(m net.IPMask) int {
 	ones, bits := m.Size()
 	return ones - (128 - bits)
@@ -221,6 +243,7 @@ func maskOnes(m net.IPMask) int {
 
 func init() {
 	vHarness["VerifC02_V6PoolConstruct"] = VerifC02_V6PoolConstruct
+	vHarness["VerifC02_V6PrefixPoolGeometry"] = VerifC02_V6PrefixPoolGeometry
 	vHarness["VerifC02_V6History"] = VerifC02_V6History
 	vHarness["VerifC09_V6Datagram"] = VerifC09_V6Datagram
 }
